@@ -90,6 +90,12 @@ def special_family():
         out.append(_mounted(tasks, mount, 'pattern'))
         tasks = {'Fa': T('f_a'), 'Cons': T('cons', inputs=[{'how': 'pattern', 'ref': '~nomatch.*'}])}
         out.append(_mounted(tasks, mount, 'pattern-empty'))
+        # patterns without a trailing wildcard match whole names only: `mean` is not `mean_abs`, and a consumer whose own name
+        # merely starts like its pattern is not its own input
+        tasks = {'Mean': T('mean'), 'MeanAbs': T('mean_abs'), 'XMean': T('xmean'), 'Cons': T('cons', inputs=[{'how': 'pattern', 'ref': '~mean'}])}
+        out.append(_mounted(tasks, mount, 'pattern-whole'))
+        tasks = {'Ra': T('raw_age'), 'Rs': T('raw_sex'), 'Buckets': T('raw_age_buckets', inputs=[{'how': 'pattern', 'ref': '~raw_(age|sex)'}])}
+        out.append(_mounted(tasks, mount, 'pattern-whole-self'))
     # patterns and nested namespaces: a `~` pattern sees only tasks of EXACTLY its own namespace, not of an enclosing or enclosed one
     for where in ('outer', 'inner'):
         tasks = {'Fa': T('f_a'), 'Fb': T('f_b'), 'Cons': T('cons', inputs=[{'how': 'pattern', 'ref': '~f_.*'}])}
